@@ -832,6 +832,9 @@ class Host(object):
                 path, m["kind"], len(self.w.get(path) or b""), r.status, r.exception, r.stdout[:100]), k)
             return r
         got = parse_listing(r.stdout)
+        if got is None:
+            res.stats["cli_listing_form_not_recognised"] += 1
+            return r
         if len(got) != len(m["files"]):
             res.violate("CLI-LIST-COUNT", "file_util --list %s shows %d files, model has %d" % (path, len(got), len(m["files"])), k)
             return r
